@@ -53,8 +53,11 @@ func c38Run(arg string) explore.HistFn {
 			lastKind = f[0]
 			if f[0] == "conn" {
 				lastKind = "conn"
-				if len(f) > 2 {
+				if len(f) > 2 && f[2] == "clean" {
 					lastKind = "conn-clean"
+				}
+				if len(f) > 2 && f[2] == "failack" {
+					lastKind = "conn-connack-write-failed"
 				}
 				if c := h.Cl[f[1]]; c != nil && !c.Closed() {
 					lastKind += "-takeover"
@@ -66,7 +69,17 @@ func c38Run(arg string) explore.HistFn {
 				case "a":
 					h.connect("a", v5connect("a", len(f) > 2, 8, 2))
 				case "b":
-					h.connect("b", world.ConnectPacket("b", 4, true))
+					if len(f) > 2 && f[2] == "failack" {
+						// the CONNACK write fails (client gone after CONNECT): the connection never counts as established
+						cl := h.W.Start(world.ConnectPacket("b", 4, true))
+						cl.C.FailWriteAt = cl.C.Writes + 1
+						h.Cl["b"] = cl
+						h.All = append(h.All, cl)
+						h.W.Run()
+						h.logf("b: -> CONNECT, CONNACK write fails (injected); closed=%v", cl.Closed())
+					} else {
+						h.connect("b", world.ConnectPacket("b", 4, true))
+					}
 				}
 				outstanding = nil
 				for _, p := range h.Cl[f[1]].Recv {
@@ -125,7 +138,7 @@ func c38Run(arg string) explore.HistFn {
 				}
 			}
 			if b == nil || b.Closed() {
-				next = append(next, "conn:b")
+				next = append(next, "conn:b", "conn:b:failack")
 			} else {
 				next = append(next, "drop:b", "sub:b:x", "pub", "ret:r1", "ret:")
 			}
